@@ -1,5 +1,82 @@
+import Spq.Q120Ntt
 import Spq.Drv.Util
-/- driver family stub (filled in by the owner of this family) -/
+/-
+  driver family `qn` (q120 NTT / iNTT):
+    qn ntt    <k> <dir> <q0..q3> <w0..w3> <h> <mask> <c0..c3> <nl> {bs half mask reduce q2bs0..3}*nl | lane words (4n, interleaved)
+    qn tables <k> <dir> <q0..q3> <w0..w3> <h> <mask> <c0..c3> <nl> {…}*nl
+  dir: 0 = forward (q120_ntt_bb_avx2), 1 = inverse (q120_intt_bb_avx2); n = 2^k.
+  The per-level metadata and the reduction metadata are the ones read from the real precomp object.
+    qn stages <head as ntt> | lane words        (answer: per stage of the plain schedule, the maximum of each lane)
+  answer of `ntt`: the 4n raw output words; answer of `tables`: the used prefix of powomega (4 lanes interleaved).
+-/
 namespace Spq.Drv
-def handleQn (_args : List String) : Option String := none
+open Spq Spq.Q120Ntt
+
+/-- lane `j` of an interleaved vector -/
+def lane (v : Array Nat) (j : Nat) : Array Nat :=
+  Array.ofFn (n := v.size / 4) fun i => v.getD (4 * i.val + j) 0
+
+def interleave (ls : Array (Array Nat)) : Array Nat :=
+  let n := (ls.getD 0 #[]).size
+  Array.ofFn (n := 4 * n) fun i => (ls.getD (i.val % 4) #[]).getD (i.val / 4) 0
+
+structure QnHead where
+  k : Nat
+  dir : Nat
+  q : Array Nat
+  w : Array Nat
+  red : Array Nat      -- h mask c0..c3
+  lv : Array Nat       -- 8 per level
+
+def parseHead (hd : Array Nat) : Option QnHead :=
+  if hd.size < 17 then none else
+  let nl := hd.getD 16 0
+  if hd.size != 17 + 8 * nl then none else
+  some { k := hd.getD 0 0, dir := hd.getD 1 0, q := hd.extract 2 6, w := hd.extract 6 10,
+         red := hd.extract 10 16, lv := hd.extract 17 (17 + 8 * nl) }
+
+def QnHead.levels (H : QnHead) (j : Nat) : Array Level :=
+  Array.ofFn (n := H.lv.size / 8) fun l =>
+    let b := 8 * l.val
+    { bs := H.lv.getD b 0, h := H.lv.getD (b+1) 0, mask := H.lv.getD (b+2) 0, reduce := H.lv.getD (b+3) 0 != 0,
+      q2bs := H.lv.getD (b+4+j) 0 }
+
+def QnHead.reduc (H : QnHead) (j : Nat) : Reduc :=
+  { h := H.red.getD 0 0, mask := H.red.getD 1 0, cst := H.red.getD (2+j) 0 }
+
+def QnHead.table (H : QnHead) (j : Nat) : Array Nat :=
+  if H.k = 0 then #[] else
+  if H.dir = 0 then tableFwd (H.q.getD j 0) (H.w.getD j 0) H.k (H.levels j)
+  else tableInv (H.q.getD j 0) (H.w.getD j 0) H.k (H.levels j)
+
+def handleQn (args : List String) : Option String :=
+  match args with
+  | op :: rest =>
+    let (hd, payload) := splitBar rest
+    match parseHead (nats hd) with
+    | none => none
+    | some H =>
+      match op with
+      | "ntt" =>
+        let v := (nats payload).map (· % W64)
+        let out := (Array.range 4).map fun j =>
+          let x := lane v j
+          if H.dir = 0 then nttLane H.k (H.levels j) (H.reduc j) (H.table j) x
+          else inttLane H.k (H.levels j) (H.reduc j) (H.table j) x
+        some (joinNats (interleave out))
+      | "stages" =>
+        -- per stage, the maximum of each lane: m(stage0,lane0..3) m(stage1,lane0..3) …
+        let v := (nats payload).map (· % W64)
+        let per := (List.range 4).map fun j =>
+          let x := lane v j
+          if H.dir = 0 then nttStageMax H.k (H.levels j) (H.reduc j) (H.table j) x
+          else inttStageMax H.k (H.levels j) (H.reduc j) (H.table j) x
+        let ns := (per.getD 0 []).length
+        let out := (List.range ns).flatMap fun st => per.map fun l => l.getD st 0
+        some (joinNats out.toArray)
+      | "tables" =>
+        some (joinNats (interleave ((Array.range 4).map fun j => H.table j)))
+      | _ => none
+  | _ => none
+
 end Spq.Drv
